@@ -39,6 +39,14 @@ ToBE(v, len) == IF len = 0 THEN << >> ELSE Append(ToBE(v \div 256, len - 1), v %
 ToLE(v, len) == Rev(ToBE(v, len))
 FieldBytes(c) == (c.m + 7) \div 8                                  \* octets of a field element / of r, s, d
 
+(* ------------------------------------------------------------------ arithmetic mod n *)
+\* Inverses modulo the group order.  Evaluation speed only: for the orders of the 8-bit curves of EcCurves the inverses are
+\* tabulated once; the table is DEFINED as the Fermat inverse and the ASSUME confirms every entry (as EcGroup!InvTab).
+OrderTabPrimes == { 59, 211, 223, 229 }
+InvNTab == TLCEval([q \in OrderTabPrimes |-> TLCEval([t \in 1..(q - 1) |-> InvFermat(t, q)])])
+InvN(t, q) == IF q \in OrderTabPrimes THEN InvNTab[q][t] ELSE InvFermat(t, q)              \* q prime, 0 < t < q
+ASSUME \A q \in OrderTabPrimes : \A t \in 1..(q - 1) : IsInv(InvN(t, q), t, q)
+
 (* ------------------------------------------------------------------ signing *)
 \* ECDSA (SEC 1 4.1.3): R = kG, r = x_R mod n, r # 0;  s = k^-1 (e + r d) mod n, s # 0
 \* GOST  (34.10-2012 6.1): C = kP, r = x_C mod q, r # 0;  s = (r d + k e) mod q, s # 0   (e already in 1..q-1)
@@ -48,7 +56,7 @@ SignW(c, alg, d, e, k, MG(_)) ==
         IN IF R = Inf THEN NoSig
            ELSE LET r  == R[1] % c.n
                     rd == MulMod(r, d % c.n, c.n)
-                    s  == IF alg = "ecdsa" THEN MulMod(InvMod(k, c.n), AddMod(e % c.n, rd, c.n), c.n)
+                    s  == IF alg = "ecdsa" THEN MulMod(InvN(k, c.n), AddMod(e % c.n, rd, c.n), c.n)
                                            ELSE AddMod(rd, MulMod(k, e % c.n, c.n), c.n)
                 IN IF r = 0 \/ s = 0 THEN NoSig ELSE << r, s >>
 Sign(c, alg, d, e, k) == SignW(c, alg, d, e, k, LAMBDA j : Mul(c, j, G(c)))
@@ -65,7 +73,7 @@ VerifyW(c, alg, Q, e, r, s, MG(_), MQ(_)) ==
    /\ ValidPubW(c, Q, MQ)
    /\ r \in 1..(c.n - 1) /\ s \in 1..(c.n - 1)
    /\ (alg = "gost" => e % c.n # 0)
-   /\ LET w  == IF alg = "ecdsa" THEN InvMod(s, c.n) ELSE InvMod(e % c.n, c.n)
+   /\ LET w  == IF alg = "ecdsa" THEN InvN(s, c.n) ELSE InvN(e % c.n, c.n)
           u1 == IF alg = "ecdsa" THEN MulMod(e % c.n, w, c.n) ELSE MulMod(s, w, c.n)
           u2 == IF alg = "ecdsa" THEN MulMod(r, w, c.n) ELSE MulMod(c.n - r, w, c.n)
           R  == Add(c, MG(u1), MQ(u2))
